@@ -254,7 +254,7 @@ Section Foot.
   Proof.
     set (u := make_url_key (q_url q)). unfold round_trip. fold u.
     destruct (is_request_method_understood q); cbn [negb]; cycle 1.
-    - unfold handle_unrecognized_method. apply FF_Origin; [reflexivity|]. intros [|r] _ _; [constructor|].
+    - unfold handle_unrecognized_method. destruct (req_only_if_cached _); [constructor|]. apply FF_Origin; [reflexivity|]. intros [|r] _ _; [constructor|].
       destruct (_ && _); [|constructor]. unfold get_refs_clean. constructor. intros ans _.
       apply invalidate_cache_safeF. constructor.
     - unfold get_refs_clean. constructor. intros ans Hans.
